@@ -528,6 +528,65 @@ def r11(ctx, rep):
               "path the user's own qualifier is stripped too: `select {t.b}` after `select {a} | join u (==a)` resolves to `u.b`", file=f["file"], line=f["l"], fn=f["path"])
 
 
+def r12(ctx, rep):
+    rep.rule("C10.R12", "the parser keeps every argument of a call: a name is returned bare only when it has no argument at all", floor=1)
+    import alpha
+    import boolfn
+    import guards
+    import itertools
+    syn = ctx.syn
+    f = syn.fn("parser::expr::func_call", crate="prqlc_parser")
+    # role anchor: the closure that builds `ExprKind::FuncCall(FuncCall { name, args, named_args })` from the parsed (name, args) pair
+    cl = None
+    for n in walk(f["body"]):
+        if n.get("k") == "closure" and any(x.get("k") == "struct" and last_seg(x["p"]) == "FuncCall" for x in walk(n["body"])):
+            cl = n
+    if cl is None:
+        raise AnchorMissing("func_call: the closure that builds FuncCall")
+    par = guards.parents(cl["body"])
+    A = alpha.Inliner(f)
+    st = [x for x in walk(cl["body"]) if x.get("k") == "struct" and last_seg(x["p"]) == "FuncCall"][0]
+    d = dict(st["f"])
+    pos_name, named_name = show(d.get("args")), show(d.get("named_args"))
+    # the parsed argument list: the closure parameter that is iterated to fill the two collections
+    all_name = None
+    for x in walk(cl["body"]):
+        if x.get("k") == "for" and x["e"].get("k") == "path":
+            all_name = x["e"]["p"]
+    bare = [x for x in walk(cl["body"]) if x.get("k") == "return" and x.get("e") is not None and show(x["e"]).endswith(".kind")]
+    bad = []
+    for r_ in bare:
+        conds, cur = [], r_
+        while id(cur) in par:
+            q = par[id(cur)]
+            if q.get("k") == "if" and q["c"].get("k") != "let":
+                conds.append((q["c"], q.get("t") is cur or guards._contains(q.get("t"), cur)))
+            cur = q
+        # consistent worlds: all empty <=> positional empty and named empty
+        for P, N in itertools.product((True, False), repeat=2):
+            Aall = P and N
+
+            def atom(t, P=P, N=N, Aall=Aall):
+                t = t.replace(" ", "")
+                if all_name and t == f"{all_name}.is_empty()":
+                    return Aall
+                if t == f"{pos_name}.is_empty()":
+                    return P
+                if t == f"{named_name}.is_empty()":
+                    return N
+                return None
+            try:
+                taken = all(boolfn.ev(c_, atom, A) == pos for c_, pos in conds)
+            except boolfn.Unknown as e:
+                bad.append(f"line {r_['l']}: condition not understood ({e})")
+                break
+            if taken and not Aall:
+                bad.append(f"line {r_['l']}: the bare name is returned although {'named' if not N else 'positional'} arguments were written")
+                break
+    rep.check(bool(bare) and not bad, "bare-name-only-without-arguments", f"func_call returns the callee alone (not a call) at {len(bare)} place(s): {bad or 'ok'}. Arguments dropped here never reach the resolver, so "
+              "`top bogus:1` is accepted (the unknown named argument is not reported) and `top n:3` silently uses the default", file=f["file"], line=cl["l"], fn=f["path"])
+
+
 def run(ctx, rep):
-    for r in (r1, r2, r3, r4, r5, r6, r7, r8, r9, r10, r11):
+    for r in (r1, r2, r3, r4, r5, r6, r7, r8, r9, r10, r11, r12):
         rep.guard(r, ctx)
